@@ -532,7 +532,7 @@ PROPS = {
                       "imported again, uncleaned titles. Known: id spaces shared across event kinds.",
         "required_theorems": ["clean_pass_absorbs_all", "import_idempotent", "import_incremental", "cursor_rule", "step_absorbs", "step_absorbed",
                               "shared_ids_drop_events", "gen_errors_reported", "gen_events_deduplicated"],
-        "slices": ["C16"],
+        "slices": ["C16", "Text"],
         "timeout": {"quick": 2400, "thorough": 7200},
         "rule": "an in-process HTTP server speaking the part of the GitLab API the importer uses serves generated trackers (issues, comments "
                 "and their edits, title changes, description changes, label and state events, ignored system notes, ghost users, hostile "
